@@ -169,17 +169,20 @@ theorem stale_term_stops (st : State) (env : Env) (term lastLogIndex reqLast : N
   simp [installSnap, hf]
 
 /-- a leader update only moves the view, the commit index and the voting right; it reports the new first
-index to the leader exactly when the view's first index moved forward -/
+index to the leader exactly when the view's first index CHANGED (forward or, after the leader lowered its compaction bound,
+backward: the repair of finding F19) -/
 theorem leader_update_fields (st : State) (p l c : Nat) (v : Option Bool) :
     let o := onLeaderUpdate st p l c v
     o.st.matchIndex = st.matchIndex ∧ o.st.nextIndex = st.nextIndex ∧ o.st.term = st.term ∧ o.st.src = st.src ∧
     o.st.viewPrev = p ∧ o.st.viewLast = l ∧ o.st.ldrLastIndex = l ∧ o.st.ldrCommit = c ∧
-    (o.notes ≠ [] ↔ st.viewPrev < p) := by
+    (o.notes ≠ [] ↔ p ≠ st.viewPrev) ∧ (o.notes ≠ [] → o.notes = [⟨"removeLTE", p⟩]) := by
   intro o
   unfold o onLeaderUpdate
-  refine ⟨rfl, rfl, rfl, rfl, rfl, rfl, rfl, rfl, ?_⟩
-  dsimp only
-  split <;> simp_all
+  refine ⟨rfl, rfl, rfl, rfl, rfl, rfl, rfl, rfl, ?_, ?_⟩
+  · dsimp only
+    split <;> simp_all
+  · dsimp only
+    split <;> simp_all
 
 -- premises are satisfiable: a concrete replication step
 example : (writeAppend { nextIndex := 2, ldrLastIndex := 3, viewLast := 3, term := 2, src := 1 }
